@@ -215,7 +215,7 @@ func SNP(golden *epb.VMGoldenMeasurement, opts *SNPOptions) error {
 	} else if opts.Measurement != nil {
 		// Check the measurement against any of the launch VMSA measurements.
 		var found bool
-		if bytes.Equal(opts.Measurement, snp.SvsmMeasurement) {
+		if len(snp.SvsmMeasurement) != 0 && bytes.Equal(opts.Measurement, snp.SvsmMeasurement) {
 			found = true
 		} else {
 			for _, measure := range snp.Measurements {
